@@ -1,16 +1,21 @@
 """C01 - the composite model tree stays a well-formed tree under any edit history.
 
 Theorems: lean/ArmiVerif/Props/C01.lean over lean/ArmiVerif/Model/Tree.lean (arena with separate
-back-pointer and child list).
+back-pointer and child list; truthiness of nodes part of the state).
 Tie: seeded edit sequences on four real composite shapes (generic Composite trees with Component
-leaves, a HexBlock of real components, a HexAssembly of HexBlocks, the smallest test reactor's
-Reactor/Core/Assembly tree); after EVERY operation the canonical state (parent id, child ids, locator
+leaves, FALSY nodes -- NullComponent, a falsy Composite subclass -- and owners of spatial grids in every state of
+the locator cache: empty / partially filled / pre-built; a HexBlock of real components with its lattice in such
+states; a HexAssembly of HexBlocks; the smallest test reactor's Reactor/Core/SpentFuelPool/Assembly tree with
+discharges into the pool); after EVERY operation the canonical state (parent id, child ids, locator
 attachment, grid owner of every object, ids = creation order) of the real objects is compared with
-the model's, followed by random traversal queries (deep / generation / flags / type / predicate /
-components / ancestors) and deepcopy / pickle points.
+the model's, followed by random traversal queries (deep / generation / flags / type / predicate / NO predicate /
+with materials / typed children / first block / components / ancestors) and deepcopy / pickle points.
 Oracle (independent of the model): parent/child agreement both ways, no duplicates, acyclicity,
-detached-after-remove, every traversal against a naive walk of the child lists, copy clauses.
-Excluded points (F4): add of an already-parented object, remove of a non-child, append/extend, a cycle.
+detached-after-remove, removeAll/setChildren postconditions, every traversal against a naive walk of the raw child
+lists, container protocol, copy clauses (every owner of a grid re-linked, every locator -- index, coordinate,
+multi-index cells -- on the copy's grid, reactor's ex-core registry).
+Excluded points (F4): add of an already-parented object, remove of a non-child, append/extend, a cycle;
+shared cells of a detached multi-index location.
 """
 import copy
 import os
@@ -32,7 +37,7 @@ ASSUMPTIONS = [
     "pickle/deepcopy of leaf payloads (parameters, materials) is outside the structural model",
 ]
 
-K_COMPOSITE, K_COMPONENT, K_BLOCK, K_ASSEMBLY, K_CORE = 0, 1, 2, 3, 4
+K_COMPOSITE, K_COMPONENT, K_BLOCK, K_ASSEMBLY, K_CORE, K_SFP = 0, 1, 2, 3, 4, 5
 TYPE_POOL = ["fuel", "clad", "duct", "bond", "wire", "coolant", "intercoolant", "igniter fuel", "c1", "c3"]
 _TYPES = {t: i + 1 for i, t in enumerate(TYPE_POOL)}
 
@@ -48,7 +53,7 @@ def type_code(o):
 
 
 def kind_of(o):
-    from armi.reactor import assemblies, blocks, cores
+    from armi.reactor import assemblies, blocks, cores, excoreStructure
     from armi.reactor.components import Component
 
     if isinstance(o, Component):
@@ -59,6 +64,8 @@ def kind_of(o):
         return K_ASSEMBLY
     if isinstance(o, cores.Core):
         return K_CORE
+    if isinstance(o, excoreStructure.ExcoreStructure):
+        return K_SFP
     return K_COMPOSITE
 
 
@@ -104,6 +111,37 @@ def ref_has_flags(o, spec, exact):
     if f == 0:
         return False
     return f == int(spec) if exact else (f & int(spec)) == int(spec)
+
+
+def check_registry(ctx, how, case, orig, new):
+    """a reactor's registry of ex-core systems (r.excore[name] -> a child of the reactor) is an internal link too"""
+    for x, ox in zip(new, orig):
+        reg = getattr(ox, "excore", None)
+        if reg is None or not hasattr(x, "excore"):
+            continue
+        for name, st in reg.items():
+            k = next((i for i, o in enumerate(orig) if o is st), None)
+            if k is not None and x.excore.get(name) is not new[k]:
+                got = x.excore.get(name)
+                ctx.fail(f"{how}-reactor-excore-registry-not-relinked", "a copy is internally re-linked: the copied reactor's "
+                         "registry of ex-core systems names the copy's own systems", case | {"system": name},
+                         observed="missing" if got is None else "the original's system" if got is st else "another object",
+                         expected="the copied system")
+
+
+def directed_reactor_copy(ctx):
+    """directed point: deepcopy / pickle of the whole fixture reactor (registered spent fuel pool)"""
+    r = fixture()
+    orig = [r] + naive_deep(r)
+    for how in ("deepcopy", "pickle"):
+        with common.quiet():
+            cp = copy.deepcopy(r) if how == "deepcopy" else pickle.loads(pickle.dumps(r))
+        check_registry(ctx, how, {"directed": "copy of the smallest test reactor", "how": how}, orig, [cp] + naive_deep(cp))
+    ctx.count("directed reactor copies", 2)
+
+
+def one_id(ses, x):
+    return "none" if x is None else str(ses.ids.get(id(x), "?"))
 
 
 class Session:
@@ -167,7 +205,7 @@ class Session:
         from armi.reactor.flags import Flags  # noqa
 
         fl = int(o.p.flags) if o.p.flags else 0
-        return f"new {kind_of(o)} {fl} {type_code(o)} {'T' if o.spatialGrid is not None else 'F'}"
+        return f"new {kind_of(o)} {fl} {type_code(o)} {'T' if o.spatialGrid is not None else 'F'} {'T' if bool(o) else 'F'}"
 
     def create(self, o):
         """a freshly constructed detached object"""
@@ -234,8 +272,12 @@ class Session:
         flagpool = sorted({int(o.p.flags) for o in self.objs if o.p.flags} | {int(Flags.FUEL), int(Flags.CLAD)})
         for _ in range(k):
             n = rng.choice([o for o in self.objs if id(o) not in self.dead])
-            kind = rng.choice(["deep", "gen", "gen", "flags", "flags", "type", "pred", "comps", "anc", "anc", "bad"])
+            kind = rng.choice(["deep", "gen", "gen", "flags", "flags", "type", "pred", "comps", "anc", "anc", "bad",
+                               "nopred", "nopred", "nopred", "mat", "typed", "typed", "first", "derived", "compq", "blocks"])
             ids = lambda l: "[" + ",".join(str(self.ids.get(id(x), "?")) for x in l) + "]"
+            if kind in ("nopred", "mat", "typed", "first", "derived", "compq", "blocks"):
+                self.more_queries(kind, n, flagpool, ids)
+                continue
             # predicate
             pk = rng.choice(["all", "par", "mod3", "flags", "type"]) if kind in ("deep", "gen", "pred", "anc") else kind
             preq, pred = "all", (lambda o: True)
@@ -320,10 +362,250 @@ class Session:
                 if pk == "flags":
                     a2 = n.getAncestorWithFlags(spec, exactMatch=exact)
                     ok = ok and (a2 is (None if exp is None else exp[0]))
+                    self.emit(f"ancflags {self.idx(n)} {sreq} {'T' if exact else 'F'}",
+                              "none" if a2 is None else str(self.ids.get(id(a2), "?")))
                 if not ok:
                     ctx.fail("ancestor-query-differs-from-parent-chain", "first object on the parent chain satisfying the predicate",
                              self.case() | {"start": self.idx(n), "predicate": preq}, observed=line,
                              expected=None if exp is None else [self.idx(exp[0]), exp[1]])
+
+    def more_queries(self, kind, n, flagpool, ids):
+        """queries called WITHOUT a predicate (predicate=None paths, includeMaterials, what is built on them) and the
+        typed queries; every answer against a naive walk of the raw child lists (`for c in node`)"""
+        from armi.reactor.flags import Flags
+
+        ctx, rng = self.ctx, self.rng
+        fail_walk = lambda key, what, got, exp: ctx.fail(
+            key, "a traversal returns exactly the objects of a naive walk of the child lists, once, in child order",
+            self.case() | {"root": self.idx(n), "root_type": type(n).__name__, "query": what,
+                           "falsy_nodes_below": sum(1 for x in naive_deep(n) if not bool(x))},
+            observed=got, expected=exp)
+
+        def spec_of():
+            exact = rng.random() < 0.4
+            form = rng.choice(["one", "one", "list", "none", "zero", "combo", "empty"])
+            if form == "one":
+                v = rng.choice(flagpool); return Flags(v), f"f{v}", exact
+            if form == "combo":
+                v = rng.choice(flagpool) | rng.choice(flagpool); return Flags(v), f"f{v}", exact
+            if form == "list":
+                vs = [rng.choice(flagpool + [0]) for _ in range(rng.randint(1, 3))]
+                return [Flags(v) for v in vs], "[" + ",".join(map(str, vs)) + "]", exact
+            if form == "empty":
+                return [], "[]", exact
+            if form == "zero":
+                return Flags(0), "f0", exact
+            return None, "_", exact
+
+        if kind in ("nopred", "mat"):
+            deep = rng.random() < 0.4
+            g = 1 if deep else rng.choice([1, 1, 2, 2, 3, rng.randint(-1, 4)])
+            if rng.random() < 0.08:
+                deep, g = True, rng.randint(2, 3)
+            naive = None if (deep and g > 1) else (naive_deep(n) if deep else naive_gen(n, g))
+            if kind == "nopred":
+                form = rng.choice(["getChildren", "iterChildren", "iterChildren-None", "getChildren-None", "default"])
+                if form == "default" and (deep or g != 1):
+                    form = "getChildren"
+                ctx.count(f"query nopred/{form}")
+                try:
+                    if form == "getChildren":
+                        got = n.getChildren(deep=deep, generationNum=g)
+                    elif form == "iterChildren":
+                        got = list(n.iterChildren(deep=deep, generationNum=g))
+                    elif form == "iterChildren-None":
+                        got = list(n.iterChildren(deep, g, None))
+                    elif form == "getChildren-None":
+                        got = n.getChildren(deep, g, False, None)
+                    else:
+                        got = n.getChildren() if rng.random() < 0.5 else list(n.iterChildren())
+                    line = ids(got)
+                except RuntimeError:
+                    got, line = None, "reject"
+                self.emit(f"iter {self.idx(n)} {'T' if deep else 'F'} {g} none", line)
+                if (got is None) != (naive is None) or (got is not None and [id(x) for x in got] != [id(x) for x in naive]):
+                    fail_walk(f"traversal-without-predicate-differs-from-naive-walk", f"{form}(deep={deep}, generationNum={g})",
+                              None if got is None else ids(got), None if naive is None else ids(naive))
+            else:
+                usepred = rng.random() < 0.3
+                r = rng.randint(0, 1)
+                pred = (lambda o: self.ids[id(o)] % 2 == r) if usepred else None
+                form = rng.choice(["getChildren", "iterChildrenWithMaterials"])
+                ctx.count(f"query materials/{form}{'/pred' if usepred else ''}")
+                try:
+                    if form == "getChildren":
+                        got = n.getChildren(deep=deep, generationNum=g, includeMaterials=True, predicate=pred)
+                    else:
+                        got = list(n.iterChildrenWithMaterials(deep=deep, generationNum=g, predicate=pred))
+                except RuntimeError:
+                    got = None
+                exp = None
+                if naive is not None:
+                    exp = []
+                    for x in naive:
+                        if pred is None or pred(x):
+                            exp.append(("o", x))
+                            if getattr(x, "material", None) is not None:
+                                exp.append(("m", x))
+                def show(items):
+                    return "[" + ",".join(("m" if t == "m" else "") + str(self.ids.get(id(x), "?")) for t, x in items) + "]"
+                line = "reject"
+                if got is not None:
+                    tagged, prev = [], None
+                    for it in got:
+                        if id(it) in self.ids:
+                            tagged.append(("o", it)); prev = it
+                        elif prev is not None and it is getattr(prev, "material", None):
+                            tagged.append(("m", prev))
+                        else:
+                            tagged.append(("m", it))     # a foreign object: shows as m?
+                    line = show(tagged)
+                self.emit(f"itermat {self.idx(n)} {'T' if deep else 'F'} {g} {'par ' + str(r) if usepred else 'none'}", line)
+                want = "reject" if exp is None else show(exp)
+                if line != want:
+                    fail_walk("traversal-with-materials-differs-from-naive-walk", f"{form}(deep={deep}, generationNum={g}, "
+                              f"includeMaterials=True, predicate={'parity' if usepred else None})", line, want)
+        elif kind == "typed":
+            def has_type(o):
+                try:
+                    o.getType(); return True
+                except Exception:
+                    return False
+            # (plain Composites carry no `type` parameter: getChildrenOfType is meaningful below typed children only)
+            if rng.random() < 0.6 or not all(has_type(c) for c in n):
+                spec, sreq, exact = spec_of()
+                form = rng.choice(["getChildrenWithFlags", "iterChildrenWithFlags"])
+                got = n.getChildrenWithFlags(spec, exactMatch=exact) if form == "getChildrenWithFlags" else \
+                    list(n.iterChildrenWithFlags(spec, exact))
+                self.emit(f"kidsflags {self.idx(n)} {sreq} {'T' if exact else 'F'}", ids(got))
+                exp = [c for c in list(n) if ref_has_flags(c, spec, exact)]
+                what = f"{form}({sreq}, exact={exact})"
+            else:
+                t = rng.choice(TYPE_POOL + [_safe_type(c) for c in n if _safe_type(c)][:3])
+                form = rng.choice(["getChildrenOfType", "iterChildrenOfType"])
+                got = n.getChildrenOfType(t) if form == "getChildrenOfType" else list(n.iterChildrenOfType(t))
+                self.emit(f"kidstype {self.idx(n)} {type_code_of(t)}", ids(got))
+                exp = [c for c in list(n) if _safe_type(c) == t]
+                what = f"{form}({t!r})"
+            ctx.count(f"query typed/{form}")
+            if [id(x) for x in got] != [id(x) for x in exp]:
+                fail_walk("typed-children-query-differs-from-naive-walk", what, ids(got), ids(exp))
+        elif kind == "first":
+            assems = [o for o in self.objs if kind_of(o) == K_ASSEMBLY and id(o) not in self.dead]
+            if not assems:
+                return
+            a = rng.choice(assems)
+            one = lambda x: "none" if x is None else str(self.ids.get(id(x), "?"))
+            if rng.random() < 0.6:
+                spec, sreq, exact = spec_of()
+                got = a.getFirstBlock(spec, exact)
+                self.emit(f"first {self.idx(a)} {sreq} {'T' if exact else 'F'}", one(got))
+                # `typeSpec is None` means no restriction; anything else goes through hasFlags
+                exp = next((c for c in list(a) if spec is None or ref_has_flags(c, spec, exact)), None)
+                what = f"getFirstBlock({sreq}, exact={exact})"
+            else:
+                t = rng.choice(TYPE_POOL[:3] + [_safe_type(c) for c in a if _safe_type(c)][:3])
+                got = a.getFirstBlockByType(t)
+                self.emit(f"firsttype {self.idx(a)} {type_code_of(t)}", one(got))
+                exp = next((c for c in list(a) if _safe_type(c) == t), None)
+                what = f"getFirstBlockByType({t!r})"
+            ctx.count("query first-block")
+            if got is not exp:
+                ctx.fail("first-block-query-differs-from-naive-walk", "the first child (in child order) that satisfies the query",
+                         self.case() | {"assembly": self.idx(a), "query": what}, observed=one(got), expected=one(exp))
+        elif kind == "blocks":
+            # Assembly.getBlocks / iterBlocks / countBlocksWithFlags (`typeSpec is None`: all children)
+            assems = [o for o in self.objs if kind_of(o) == K_ASSEMBLY and id(o) not in self.dead]
+            if not assems:
+                return
+            a = rng.choice(assems)
+            spec, sreq, exact = spec_of()
+            form = rng.choice(["getBlocks", "iterBlocks", "countBlocksWithFlags"])
+            exp = [c for c in list(a) if spec is None or ref_has_flags(c, spec, exact if form != "countBlocksWithFlags" else False)]
+            if form == "getBlocks":
+                got = a.getBlocks(spec, exact)
+            elif form == "iterBlocks":
+                got = list(a.iterBlocks(spec, exact))
+            else:
+                got = a.countBlocksWithFlags(spec)
+            ctx.count(f"query blocks/{form}")
+            if spec is None:
+                self.emit(f"iter {self.idx(a)} F 1 none", ids(exp) if form == "countBlocksWithFlags" else ids(got))
+            elif form != "countBlocksWithFlags":
+                self.emit(f"kidsflags {self.idx(a)} {sreq} {'T' if exact else 'F'}", ids(got))
+            bad = (got != len(exp)) if form == "countBlocksWithFlags" else ([id(x) for x in got] != [id(x) for x in exp])
+            if bad:
+                ctx.fail("assembly-blocks-query-differs-from-naive-walk", "the blocks of the assembly (child order) that have the flags",
+                         self.case() | {"assembly": self.idx(a), "query": f"{form}({sreq}, exact={exact})"},
+                         observed=got if form == "countBlocksWithFlags" else ids(got), expected=len(exp) if form == "countBlocksWithFlags" else ids(exp))
+        elif kind == "compq":
+            # queries over the leaf components (oracle only; the walk itself is `comps` / iterComps in the model)
+            from armi.reactor import components as comps_mod
+
+            allc = naive_comps(n, lambda o: True)
+            form = rng.choice(["getComponentNames", "getComponentsOfShape", "getComponentByName", "getComponent"])
+            ctx.count(f"query components/{form}")
+            case = self.case() | {"root": self.idx(n), "query": form}
+            if form == "getComponentNames":
+                got, exp = n.getComponentNames(), {c.getName() for c in allc}
+            elif form == "getComponentsOfShape":
+                cls = rng.choice([comps_mod.Circle, comps_mod.Hexagon, comps_mod.NullComponent, comps_mod.DerivedShape, comps_mod.Helix])
+                got, exp = ids(n.getComponentsOfShape(cls)), ids([c for c in allc if isinstance(c, cls)])
+                case["shape_class"] = cls.__name__
+            elif form == "getComponentByName":
+                name = rng.choice([c.name for c in allc] + ["no-such-component"])
+                hits = [c for c in allc if c.name == name]
+                try:
+                    got = one_id(self, n.getComponentByName(name))
+                except ValueError:
+                    got = "raises"
+                exp = "none" if not hits else one_id(self, hits[0]) if len(hits) == 1 else "raises"
+            elif form == "getComponent":
+                spec, sreq, exact = spec_of()
+                hits = [c for c in allc if ref_has_flags(c, spec, exact)]
+                try:
+                    got = one_id(self, n.getComponent(spec, exact=exact, quiet=True))
+                except ValueError:
+                    got = "raises"
+                exp = "none" if not hits else one_id(self, hits[0]) if len(hits) == 1 else "raises"
+                case["spec"] = sreq
+            if got != exp:
+                ctx.fail("component-query-differs-from-naive-walk", "queries over the leaf components answer from the naive "
+                         "depth-first walk of the child lists", case, observed=got, expected=exp)
+        else:
+            # answers DERIVED from the predicate-less traversal (oracle only)
+            spec, sreq, exact = spec_of()
+            deep = rng.random() < 0.5
+            walk = naive_deep(n) if deep else list(n)
+            got = list(n.doChildrenHaveFlags(spec, deep=deep))
+            exp = [bool(ref_has_flags(c, spec, False)) for c in walk]
+            ctx.count("query derived/doChildrenHaveFlags")
+            if [bool(x) for x in got] != exp:
+                fail_walk("derived-children-query-differs-from-naive-walk", f"doChildrenHaveFlags({sreq}, deep={deep})", got, exp)
+            # the container protocol of a composite against its raw child list (identity, not equality / truthiness)
+            raw = list(n._children)
+            probe = rng.choice(self.objs)
+            facts = {"len": len(n) == len(raw), "iter": [id(c) for c in n] == [id(c) for c in raw],
+                     "contains": (probe in n) == any(c is probe for c in raw),
+                     "getitem": all(n[i] is raw[i] for i in range(len(raw))) and (not raw or n[-1] is raw[-1])}
+            if raw:
+                c0 = rng.choice(raw)
+                facts["contains-child"] = c0 in n
+                try:
+                    facts["index"] = raw[n.index(c0)] is c0
+                except Exception:
+                    facts["index"] = False
+            ctx.count("query derived/container protocol")
+            if not all(facts.values()):
+                fail_walk("container-protocol-differs-from-child-list", "len / iter / in / [] / index", 
+                          {k: v for k, v in facts.items() if not v}, "all true")
+            if kind_of(n) != K_COMPONENT:
+                try:
+                    both = n + n      # ArmiObject.__add__: getChildren() + other.getChildren()
+                except Exception:
+                    both = None
+                if both is not None and [id(x) for x in both] != [id(x) for x in list(n) + list(n)]:
+                    fail_walk("derived-children-query-differs-from-naive-walk", "n + n (children of both)", ids(both), ids(list(n) + list(n)))
 
     # ---- operations
     def ancestors_or_self(self, p):
@@ -373,10 +655,32 @@ class Session:
                         and orig[new.index(c)].spatialLocator.grid is orig[new.index(x)].spatialGrid:
                     ctx.fail(f"{how}-locator-not-relinked", "locators of a copy live in the copy's grid", case)
             if x.spatialGrid is not None and x.spatialGrid.armiObject is not x:
-                ctx.fail(f"{how}-grid-not-relinked", "grids of a copy point at the new owner", case)
+                ctx.fail(f"{how}-grid-not-relinked", "grids of a copy point at the new owner",
+                         case | {"owner_type": type(x).__name__, "grid": type(x.spatialGrid).__name__, "grid_len": len(x.spatialGrid)})
+            ox = orig[new.index(x)]
+            if (x.spatialGrid is None) != (ox.spatialGrid is None):
+                ctx.fail(f"{how}-grid-lost", "a copy has a grid exactly where the original has one", case)
+            if x.spatialGrid is not None:
+                for c, oc in zip(x, ox):
+                    ol, cl = oc.spatialLocator, c.spatialLocator
+                    if ol is not None and ol.grid is ox.spatialGrid:
+                        inner = list(getattr(cl, "_locations", [])) if type(cl).__name__ == "MultiIndexLocation" else []
+                        if cl is not None and cl.grid is x.spatialGrid and any(q.grid is not x.spatialGrid for q in inner):
+                            # the multi-index locator itself is re-linked; (some of) its cells sit on ANOTHER owner's grid
+                            ctx.fail("copy-multiindex-cells-on-other-grid", "locators of a copy live in the copy's grid (every cell "
+                                     "of a multi-index location too)", case | {"owner_type": type(x).__name__,
+                                     "cells_on_a_grid_of_the_copy": [any(q.grid is y.spatialGrid for y in new) for q in inner]})
+                        elif cl is None or cl.grid is not x.spatialGrid:
+                            ctx.fail(f"{how}-locator-not-relinked", "locators of a copy live in the copy's grid",
+                                     case | {"owner_type": type(x).__name__, "locator": type(ol).__name__,
+                                             "grid": type(x.spatialGrid).__name__, "grid_len": len(x.spatialGrid)})
+                        elif type(cl) is not type(ol) or (not inner and (cl.i, cl.j, cl.k) != (ol.i, ol.j, ol.k)):
+                            ctx.fail(f"{how}-locator-moved", "a copy is an equal-shaped tree (same kind of location, same cell / "
+                                     "coordinates)", case | {"locator": type(ol).__name__})
             for g in [x.spatialGrid] + ([x.spatialLocator.grid] if x.spatialLocator is not None else []):
                 if g is not None and any(g is y.spatialGrid for y in orig):
                     ctx.fail(f"{how}-shares-grid", "a copy shares no grid with the original", case)
+        check_registry(ctx, how, case, orig, new)
         # the ORIGINAL is untouched by the copy: its grids still point at it, its children still live in its grid
         for x, was in zip(orig, before):
             if x.spatialGrid is not None and x.spatialGrid.armiObject is not x and was["owner_self"]:
@@ -393,6 +697,17 @@ class Session:
 
     def ranks(self, p):
         """rank of every object among its siblings by the real __lt__ (None if a comparison raises)"""
+        from armi import runLog
+
+        # (__lt__ logs an error line before raising for locators on different grids: not the check's business)
+        old = runLog.getVerbosity()
+        runLog.setVerbosity(100)
+        try:
+            return self._ranks(p)
+        finally:
+            runLog.setVerbosity(old)
+
+    def _ranks(self, p):
         r = [0] * len(self.objs)
         todo = [p]
         while todo:
@@ -445,6 +760,94 @@ def fresh_reactor():
 
 FLAG_NAMES = ["FUEL", "CLAD", "DUCT", "CONTROL", "INNER", "SHIELD", "COOLANT"]
 
+_CLS = {}
+
+
+def falsy_group_class():
+    """a plain Composite whose truth value is False -- what components.NullComponent is among the Components
+    (an interior node of the tree that `if obj:` / `filter(None, ...)` would skip)"""
+    if "fg" not in _CLS:
+        from armi.reactor import composites
+
+        class FalsyGroup(composites.Composite):
+            def __bool__(self):
+                return False
+
+        FalsyGroup.__module__ = __name__
+        FalsyGroup.__qualname__ = "FalsyGroup"
+        globals()["FalsyGroup"] = FalsyGroup      # picklable by reference
+        _CLS["fg"] = FalsyGroup
+    return _CLS["fg"]
+
+
+def _grids():
+    from armi.reactor import grids
+
+    return grids
+
+
+def null_component(name):
+    from armi.reactor.components import NullComponent
+
+    return NullComponent(name, "Void", 25.0, 25.0)
+
+
+GRID_STATES = ["hex-empty", "hex-empty", "hex-partial", "hex-prebuilt", "cart-empty", "cart-prebuilt", "axial"]
+
+
+def make_grid(ctx, rng, state=None):
+    """a spatial grid in a chosen state of its locator cache: EMPTY (len 0, bool False -- what
+    Block.autoCreateSpatialGrids builds), PARTIALLY filled (a few cells requested), PRE-BUILT"""
+    from armi.reactor import grids
+
+    state = state or rng.choice(GRID_STATES)
+    pitch = rng.choice([1.0, 1.25, 2.0])
+    if state == "hex-empty":
+        g = grids.HexGrid.fromPitch(pitch, numRings=0)
+    elif state == "hex-partial":
+        g = grids.HexGrid.fromPitch(pitch, numRings=0)
+        for _ in range(rng.randint(1, 3)):
+            g[rng.randint(-2, 2), rng.randint(-2, 2), 0]
+    elif state == "hex-prebuilt":
+        g = grids.HexGrid.fromPitch(pitch, numRings=2)
+    elif state == "cart-empty":
+        g = grids.CartesianGrid.fromRectangle(pitch, pitch, numRings=0)
+    elif state == "cart-prebuilt":
+        g = grids.CartesianGrid.fromRectangle(pitch, pitch, numRings=2)
+    else:
+        g = grids.AxialGrid.fromNCells(rng.randint(1, 4))
+    ctx.count(f"own grid {state} (len {'0' if len(g) == 0 else '>0'}, bool {bool(g)})")
+    return g
+
+
+def some_location(rng, g):
+    """a locator on grid g: an index cell (fills the cache), a coordinate location (does not), or several cells"""
+    from armi.reactor import grids
+
+    if type(g).__name__ == "AxialGrid":
+        return g[0, 0, rng.randint(0, 3)]
+    k = rng.random()
+    if k < 0.45:
+        return grids.CoordinateLocation(rng.randint(-4, 4) / 4.0, rng.randint(-4, 4) / 4.0, 0.0, g)
+    if k < 0.85:
+        return g[rng.randint(-1, 1), rng.randint(-1, 1), 0]
+    return g[[(0, 0, 0), (1, 0, 0), (0, 1, 0)][: rng.randint(1, 3)]]
+
+
+def swap_block_lattice(ctx, rng, b, p_asbuilt=0.2):
+    """give the block its own lattice in another state of the locator cache (what Block.autoCreateSpatialGrids-style
+    code builds: empty until a cell is requested); children placed with coordinate locations (and, for the partial
+    state, index cells / multi-index locations)"""
+    variant = "as-built" if rng.random() < p_asbuilt else rng.choice(["hex-empty", "hex-empty", "hex-partial", "cart-empty"])
+    if variant != "as-built":
+        g = make_grid(ctx, rng, variant)
+        g.armiObject = b
+        b.spatialGrid = g
+        for c in b:
+            c.spatialLocator = some_location(rng, g) if variant == "hex-partial" else \
+                _grids().CoordinateLocation(rng.randint(-2, 2) / 2.0, rng.randint(-2, 2) / 2.0, 0.0, g)
+    ctx.count(f"block lattice {variant}")
+
 
 def make_generic(ses):
     from armi.reactor import composites, grids
@@ -454,14 +857,24 @@ def make_generic(ses):
     rng = ses.rng
     pool = [Flags.FUEL, Flags.CLAD, Flags.DUCT, Flags.FUEL | Flags.INNER, Flags.CONTROL, Flags(0),
             Flags.FUEL | Flags.INNER | Flags.SHIELD, Flags.CLAD | Flags.DUCT]
-    for i in range(rng.randint(3, 9)):
-        if rng.random() < 0.25:
+    forced = {1: "null", 2: rng.choice(["null", "falsygroup"])}      # every tree has falsy nodes
+    for i in range(rng.randint(4, 10)):
+        k = rng.random()
+        what = forced.get(i) or ("circle" if k < 0.2 else "null" if k < 0.35 else "falsygroup" if k < 0.45 else "composite")
+        if what == "circle":
             n = Circle(f"c{i}", "HT9", Tinput=25.0, Thot=25.0, od=1.0 + i, id=0.0, mult=1)
-            n.p.flags = rng.choice(pool)
+        elif what == "null":
+            n = null_component(f"null{i}")
+        elif what == "falsygroup":
+            n = falsy_group_class()(f"fg{i}")
         else:
             n = composites.Composite(f"n{i}")
-            n.p.flags = rng.choice(pool)
+        n.p.flags = rng.choice(pool)
+        if what in ("composite", "falsygroup") and rng.random() < 0.45:
+            n.spatialGrid = make_grid(ses.ctx, rng)
+            n.spatialGrid.armiObject = n
         n.spatialLocator = grids.IndexLocation(rng.randint(-2, 2), rng.randint(-2, 2), rng.randint(0, 3), None)
+        ses.ctx.count(f"generic node: {what}")
         ses.create(n)
 
 
@@ -473,11 +886,17 @@ def run_sequence(ctx, shape, seq_seed, batch, nops, nq):
     core = None
     if shape == "generic":
         make_generic(ses)
-        ops = ["add", "add", "add", "insert", "insert", "remove", "removeAll", "setChildren", "sort", "copy"]
+        ops = ["add", "add", "add", "add", "insert", "insert", "remove", "removeAll", "setChildren", "sort", "copy", "copy",
+               "moveto", "moveto", "moveto"]
     elif shape == "block":
         with common.quiet():
             b = copy.deepcopy(fixture().core[0][0])
+            swap_block_lattice(ctx, rng, b)
+            for k in range(rng.randint(0, 2)):
+                b.insert(rng.randint(0, len(b)), null_component(f"nullb{k}"))
         ses.mirror(b)
+        for k in range(rng.randint(1, 2)):
+            ses.create(null_component(f"nullfree{k}"))
         if rng.random() < 0.5:
             try:
                 prelude_mixed(ses, b)
@@ -488,16 +907,29 @@ def run_sequence(ctx, shape, seq_seed, batch, nops, nq):
     elif shape == "assembly":
         with common.quiet():
             a = copy.deepcopy(fixture().core[0])
+            for blk in a:
+                swap_block_lattice(ctx, rng, blk, p_asbuilt=0.4)
+            if rng.random() < 0.6:
+                for k in range(rng.randint(1, 3)):
+                    blk = rng.choice(list(a))
+                    blk.insert(rng.randint(0, len(blk)), null_component(f"nulla{k}"))
+                ctx.count("assembly with NullComponents inside its blocks")
         ses.mirror(a)
         ops = ["add", "add", "insert", "insert", "remove", "removeAll", "setChildren", "sort", "reest", "copy", "copychild",
                "blockremove", "moveto", "replace", "replace"]
     else:
         r = fresh_reactor()
+        with common.quiet():
+            for blk in r.core.getChildren(deep=True, predicate=lambda o: kind_of(o) == K_BLOCK):
+                swap_block_lattice(ctx, rng, blk, p_asbuilt=0.5)
+        sfp = next((c for c in r if type(c).__name__ == "SpentFuelPool"), None)
+        if sfp is not None and r.excore.get("sfp") is None:
+            r.excore["sfp"] = sfp       # (copy.deepcopy of a Reactor does not carry the excore registry over)
         ses.mirror(r)
         core = r.core
         # (no component removal here: Core.add needs geometrically complete blocks)
         ops = ["coreadd", "coreadd", "coreremove", "copychild", "add", "insert", "remove", "sort", "copy", "reest", "moveto",
-               "replace"]
+               "replace", "discharge", "discharge", "sfpadd", "sfpremove"]
     ses.check_inv("initial")
     ses.queries(nq)
     for _ in range(nops):
@@ -598,6 +1030,15 @@ class _Broken(Exception):
     """the oracle found the real tree broken; the rest of the sequence is meaningless"""
 
 
+def _stale_multi(c, p):
+    """valid-use guard for the known finding `copy-multiindex-cells-on-other-grid`: c carries a DETACHED multi-index
+    location whose cells are still the (attached) cells of its former owner's grid, and p owns a grid -- re-adding c
+    there makes a later copy re-associate those shared cells (the directed excluded point runs exactly this)"""
+    loc = c.spatialLocator
+    return (p.spatialGrid is not None and type(loc).__name__ == "MultiIndexLocation" and loc.grid is None
+            and any(q.grid is not None for q in loc))
+
+
 def _parents_for(ses, shape, kinds):
     return [o for o in ses.objs if kind_of(o) in kinds]
 
@@ -656,6 +1097,9 @@ def _one_op(ses, op, shape, core):
                  and K(c) not in (K_CORE,) and type(c).__name__ not in ("Reactor", "SpentFuelPool")]
         if shape == "core":
             cands = [c for c in cands if K(c) == K_BLOCK]
+        if any(_stale_multi(c, p) for c in cands):
+            ses.ctx.count("candidates left out: detached multi-index location sharing cells with the former grid (known finding)")
+            cands = [c for c in cands if not _stale_multi(c, p)]
         if not cands:
             raise _Skip()
         c = rng.choice(cands)
@@ -682,15 +1126,30 @@ def _one_op(ses, op, shape, core):
         ks = list(p)
         ok = _call(lambda: p.removeAll(), multi=True)
         ses.removed += [k for k in ks if not any(k is x for x in p)]
+        if ok and len(p):
+            left = list(p)
+            ses.ctx.fail("removeAll-leaves-children", "removeAll takes every child out of the model (no parent, detached "
+                         "location, not listed)", ses.case() | {"parent": ses.idx(p), "parent_type": type(p).__name__,
+                                                                 "left_falsy": [not bool(c) for c in left]},
+                         observed=[ses.idx(c) for c in left], expected=[])
         ses.after(f"removeAll {ses.idx(p)}", ok, op)
     elif op == "setChildren":
         p = rng.choice(parents)
         anc = ses.ancestors_or_self(p)
-        cands = [c for c in objs if (c.parent is None or c.parent is p) and not any(c is x for x in anc) and child_ok(p, c)]
+        cands = [c for c in objs if (c.parent is None or c.parent is p) and not any(c is x for x in anc) and child_ok(p, c)
+                 and not _stale_multi(c, p)]
+        # (a current child located by a multi-index location would be detached by removeAll and re-added under p: the same
+        # excluded configuration once a sibling shares a cell)
+        if p.spatialGrid is not None:
+            cands = [c for c in cands if not (c.parent is p and type(c.spatialLocator).__name__ == "MultiIndexLocation")]
         ks = rng.sample(cands, min(len(cands), rng.randint(0, 4)))
         old = list(p)
         ok = _call(lambda: p.setChildren(ks), multi=True)
         ses.removed = [x for x in ses.removed + old if not any(x is k for k in p)]
+        if ok and [id(c) for c in p] != [id(k) for k in ks]:
+            ses.ctx.fail("setChildren-children-differ-from-items", "after setChildren(items) the child list is items, in order; "
+                         "every other former child is out of the model", ses.case() | {"parent": ses.idx(p)},
+                         observed=[ses.idx(c) for c in p], expected=[ses.idx(k) for k in ks])
         ses.after(f"setChildren {ses.idx(p)} [{','.join(str(ses.idx(k)) for k in ks)}]", ok, op)
     elif op == "sort":
         p = core if shape == "core" and rng.random() < 0.5 else rng.choice(parents)
@@ -714,10 +1173,23 @@ def _one_op(ses, op, shape, core):
             ses.after(f"insert {ses.idx(p)} {i} {ses.idx(g)}", ok, "insert")
     elif op == "moveto":
         # child.moveTo(holder.spatialGrid[i,j,k]); refused unless the grid's owner is the child's parent
-        holders = [o for o in objs if o.spatialGrid is not None and K(o) in (K_BLOCK, K_ASSEMBLY)]
+        holders = [o for o in objs if o.spatialGrid is not None and
+                   (K(o) in (K_BLOCK, K_ASSEMBLY) or (shape == "generic" and K(o) == K_COMPOSITE))]
         if not holders:
             raise _Skip()
         h = rng.choice(holders)
+        if shape in ("generic", "block") and K(h) != K_ASSEMBLY:
+            pool = list(h) if rng.random() < 0.85 and len(h) else [o for o in objs if K(o) in (K_COMPONENT, K_COMPOSITE)]
+            if not pool:
+                raise _Skip()
+            c = rng.choice(pool)
+            was_len = len(h.spatialGrid)
+            loc = some_location(rng, h.spatialGrid)
+            ok = _call(lambda: c.moveTo(loc))
+            ses.ctx.count(f"moveTo a {type(loc).__name__} (locator cache {'empty' if was_len == 0 else 'non-empty'} before, "
+                          f"{'empty' if len(h.spatialGrid) == 0 else 'non-empty'} after)")
+            ses.after(f"moveto {ses.idx(c)} {ses.idx(h)}", ok, "moveTo")
+            return
         pool = list(h) if rng.random() < 0.8 and len(h) else [o for o in objs if K(o) in (K_COMPONENT, K_BLOCK, K_COMPOSITE)]
         pool = [c for c in pool if K(c) not in (K_ASSEMBLY, K_CORE) and type(c).__name__ not in ("Reactor", "SpentFuelPool")]
         if not pool:
@@ -760,12 +1232,61 @@ def _one_op(ses, op, shape, core):
         if not free:
             raise _Skip()
         a = rng.choice(cands)
-        if any(x.getName() == a.getName() for x in core):
+        if any(x.getName() == a.getName() for x in core) or core.assembliesByName.get(a.getName(), a) is not a:
+            # (the name index also holds tracked assemblies sitting in the pool; a clash makes Core.add raise after the
+            # structural change -- C14's bookkeeping)
             a.makeUnique()
         i, j = rng.choice(free)
         ok = _call(lambda: core.add(a, grid[i, j, 0]))
         ses.removed = [x for x in ses.removed if x is not a]
         ses.after(f"add {ses.idx(core)} {ses.idx(a)}", ok, "Core.add")
+    elif op == "discharge":
+        # Core.removeAssembly(a, discharge=True) with assembly tracking on / off, pool registered or not
+        if len(core) == 0:
+            raise _Skip()
+        a = rng.choice(list(core))
+        r = core.parent
+        sfp = r.excore.get("sfp")
+        track = rng.random() < 0.75
+        hide = False   # (tracking on with the pool unregistered leaves Core's name index stale: C14's bookkeeping, not a tree effect)
+        old = core._trackAssems
+        core._trackAssems = track
+        if hide:
+            del r.excore["sfp"]
+        try:
+            ok = _call(lambda: core.removeAssembly(a, discharge=True))
+        finally:
+            core._trackAssems = old
+            if hide:
+                r.excore["sfp"] = sfp
+        dest = sfp if (track and not hide and sfp is not None) else None
+        if dest is None:
+            ses.removed.append(a)
+        elif ok and (a.parent is not dest or not any(x is a for x in dest) or any(x is a for x in core)
+                     or a.spatialLocator is None or a.spatialLocator.grid is not dest.spatialGrid):
+            ses.ctx.fail("discharge-assembly-not-in-pool", "a discharged, tracked assembly is a child of the spent fuel pool "
+                         "(and of nothing else), located on the pool's grid", ses.case() | {"assembly": ses.idx(a)},
+                         observed={"parent": None if a.parent is None else ses.idx(a.parent), "in pool list": any(x is a for x in dest),
+                                   "in core list": any(x is a for x in core)})
+        ses.ctx.count(f"discharge ({'into the pool' if dest is not None else 'not tracked / no pool'})")
+        ses.after(f"discharge {ses.idx(core)} {ses.idx(a)} {'_' if dest is None else ses.idx(dest)}", ok, "Core.removeAssembly(discharge)")
+    elif op == "sfpadd":
+        sfp = core.parent.excore.get("sfp")
+        cands = [a for a in objs if K(a) == K_ASSEMBLY and a.parent is None and len(a) > 0]
+        if sfp is None or not cands:
+            raise _Skip()
+        a = rng.choice(cands)
+        ok = _call(lambda: sfp.add(a))
+        ses.removed = [x for x in ses.removed if x is not a]
+        ses.after(f"sfpadd {ses.idx(sfp)} {ses.idx(a)}", ok, "SpentFuelPool.add")
+    elif op == "sfpremove":
+        sfp = core.parent.excore.get("sfp")
+        if sfp is None or len(sfp) == 0:
+            raise _Skip()
+        a = rng.choice(list(sfp))
+        ok = _call(lambda: sfp.remove(a))
+        ses.removed.append(a)
+        ses.after(f"remove {ses.idx(sfp)} {ses.idx(a)}", ok, "remove")
     elif op == "coreremove":
         if len(core) == 0:
             raise _Skip()
@@ -836,7 +1357,30 @@ def excluded_points(ctx, batch):
     if ok and A.parent is B and B.parent is A:
         ctx.fail("add-creates-cycle", "the parent relation has no cycle", {"ops": ["A.add(B)", "B.add(A)"]},
                  observed="A.parent is B and B.parent is A", expected="the second add refused")
-    ctx.count("excluded points run", 5)
+    # (e) shared cells of a multi-index location (MultiIndexLocation.detachedCopy keeps the grid's own cell objects)
+    from armi.reactor import grids
+
+    top, X, Y, c1, c2 = (composites.Composite(nm) for nm in ("top", "X", "Y", "c1", "c2"))
+    for o, pitch in ((X, 1.0), (Y, 2.0)):
+        o.spatialGrid = grids.HexGrid.fromPitch(pitch, numRings=0)
+        o.spatialGrid.armiObject = o
+        top.add(o)
+    X.add(c1); X.add(c2)
+    c1.moveTo(X.spatialGrid[[(0, 0, 0), (1, 0, 0)]])
+    c2.moveTo(X.spatialGrid[[(0, 0, 0)]])
+    X.remove(c1)
+    Y.add(c1)
+    for how in ("deepcopy", "pickle"):
+        t2 = copy.deepcopy(top) if how == "deepcopy" else pickle.loads(pickle.dumps(top))
+        X2 = t2[0]
+        cells = list(X2[0].spatialLocator)
+        if X2[0].spatialLocator.grid is X2.spatialGrid and any(q.grid is not X2.spatialGrid for q in cells):
+            ctx.fail("copy-multiindex-cells-on-other-grid", "locators of a copy live in the copy's grid (every cell of a "
+                     "multi-index location too)",
+                     {"ops": ["c1.moveTo(X.grid[[(0,0,0),(1,0,0)]])", "c2.moveTo(X.grid[[(0,0,0)]])", "X.remove(c1)", "Y.add(c1)",
+                              f"{how}(top)"], "how": how},
+                     observed="the cell of c2' (child of X') sits on the grid of Y'", expected="on the grid of X'")
+    ctx.count("excluded points run", 6)
 
 
 # --------------------------------------------------------------------------- entry points
@@ -861,7 +1405,7 @@ def run(ctx):
     # generic composites first: they need no reactor fixture
     for shape, seq_seed, nops in todo:
         if shape == "generic":
-            run_sequence(ctx, shape, seq_seed, batch, nops, nq=3)
+            run_sequence(ctx, shape, seq_seed, batch, nops, nq=4)
     try:
         fixture()
         have_fixture = True
@@ -870,9 +1414,10 @@ def run(ctx):
         ctx.disagree("the smallest test reactor can no longer be built (blueprints construction deep-copies assemblies)",
                      {"shape": "generic", "seq_seed": 0}, "loads", repr(e)[:300])
     if have_fixture:
+        directed_reactor_copy(ctx)
         for shape, seq_seed, nops in todo:
             if shape != "generic":
-                run_sequence(ctx, shape, seq_seed, batch, nops, nq=3)
+                run_sequence(ctx, shape, seq_seed, batch, nops, nq=4)
     model = lean_run("Tree", batch["req"])
     rows = [(c, m, i) for c, m, i in zip(batch["cases"], model, batch["impl"]) if i is not None]
     ctx.compare("Model/Tree.lean vs real composite objects", [r[0] for r in rows], [r[1] for r in rows], [r[2] for r in rows])
@@ -883,9 +1428,11 @@ def run(ctx):
     ctx.extra["excluded_points_model_agreement"] = f"{agree}/{len(em)} lines"
     ctx.samples.append({"request": batch["req"][-1], "model": model[-1], "impl": batch["impl"][-1]})
     ctx.rule = ("seeded valid-use edit sequences (add/insert with negative and out-of-range indices/remove/removeAll/"
-                "setChildren/sort/reestablishBlockOrder/Core.add/removeAssembly/deepcopy/pickle) on generic composite trees, "
-                "a HexBlock of real components, a HexAssembly of HexBlocks and the smallest test reactor; evaluations = "
-                "compared protocol lines (one canonical whole-tree state per operation + 3 traversal queries after each); "
+                "setChildren/sort/reestablishBlockOrder/moveTo/Core.add/removeAssembly with and without discharge into the spent "
+                "fuel pool/SpentFuelPool.add/deepcopy/pickle) on generic composite trees (with falsy nodes and grid owners in "
+                "every locator-cache state), a HexBlock of real components, a HexAssembly of HexBlocks and the smallest test "
+                "reactor; evaluations = "
+                "compared protocol lines (one canonical whole-tree state per operation + 4 traversal queries after each); "
                 "distinct = distinct (shape, sequence seed) with at least one executed operation")
 
 
@@ -909,7 +1456,9 @@ def replay(ctx, payload):
     dummy = {"req": [], "impl": [], "cases": []}
     if case.get("shape") in SHAPES:
         fixture()
-        run_sequence(sub, case["shape"], case["seq_seed"], dummy, 400, nq=3)
+        run_sequence(sub, case["shape"], case["seq_seed"], dummy, 400, nq=4)
+    elif case.get("directed"):
+        directed_reactor_copy(sub)
     else:
         excluded_points(sub, dummy)
     hit = [f for f in sub.failures if f.key == key]
